@@ -159,3 +159,26 @@ indent_all_but_first = Contract(
 )
 indent_all_but_first.split_forks = True
 CONTRACTS.append(indent_all_but_first)
+
+# ------------------------------------------------------------------------------------------- strip_split (C15 / C14 / C09: how a dotted address becomes a search path)
+_SEG = ("str-without", ".")
+_SS_REST = "param[param.find('.') + 1:]"
+strip_split = Contract(
+    "doctrans.pure_utils:strip_split",
+    properties=["C15", "C14", "C09"],
+    note="dotted addresses with a literal skeleton: '<a>', '<a>.<b>', '<a>.<b>.<c>' with symbolic segments that contain no dot (str.split and str.find are decided on "
+         "the skeleton: exact, structstr.py); `map(str.strip, <list>)` is executed element by element; the lazy map result is compared as the list of its items",
+    cases=[Case("one", {"param": "str", "sep": ("lit", ".")}, assume=["('.' in param) == False"]),
+           Case("two", {"param": ("strcat", [_SEG, ".", _SEG]), "sep": ("lit", ".")}),
+           Case("three", {"param": ("strcat", [_SEG, ".", _SEG, ".", _SEG]), "sep": ("lit", ".")})],
+    ensures=[
+        Clause("SS-one", "list(result) == [param.strip()]", when=["one"], note="an address without a dot is one segment (blank ends removed)"),
+        Clause("SS-two", "list(result) == [param[:param.find('.')].strip(), param[param.find('.') + 1:].strip()]", when=["two"],
+               note="C15: 'A.b' addresses b inside A - two segments, in order, each exactly the text between the dots without its blank ends; nothing dropped, nothing merged"),
+        Clause("SS-three", "list(result) == [param[:param.find('.')].strip(), %s[:%s.find('.')].strip(), %s[%s.find('.') + 1:].strip()]" % ((_SS_REST,) * 4), when=["three"],
+               note="three levels: three segments - the texts before the first dot, between the two dots and after the second, each without its blank ends"),
+    ],
+    canaries=["list(result)[0] == param[:len(list(result)[0])]"],  # must be refutable: a segment with a leading blank comes back without it
+)
+strip_split.split_forks = True
+CONTRACTS.append(strip_split)
